@@ -39,8 +39,14 @@ def pmap(fn, items, nworkers=None, chunksize=1):
         return
     ctx = mp.get_context("fork")
     with ctx.Pool(n) as pool:
-        for r in pool.imap(fn, items, chunksize):
-            yield r
+        it = pool.imap(fn, items, chunksize)
+        for _ in range(len(items)):
+            try:
+                # watchdog: a worker that died (OOM, stray signal) never delivers its result; fail loudly instead of waiting forever
+                yield it.next(timeout=float(os.environ.get("VERIF_ITEM_TIMEOUT", "3600")))
+            except mp.TimeoutError:
+                from .build import HarnessError
+                raise HarnessError("a worker did not deliver its result within the watchdog time (worker died or stalled)")
 
 
 def log(*a):
